@@ -202,6 +202,60 @@ def check_net(ctx, root, ncols, rs, cap, tag, hist=None):
     return len(X)
 
 
+def fitted_case(rs, k):
+    from deeprob.spn.structure.node import Sum, Product
+    from deeprob.spn.structure.leaf import Categorical as _Cat
+    comps = []
+    nv = int(rs.randint(1, 4))
+    for c in range(2):
+        leaves = []
+        for v in range(nv):
+            dom = [int(t) for t in rs.permutation(int(rs.randint(2, 6)))]
+            if k % 3 == 0:
+                dom = [int(t) for t in rs.choice(12, len(dom), replace=False)]      # gaps, too
+            lf = _Cat(v)
+            data = rs.choice(dom, size=(int(rs.choice([20, 60])), 1), p=rs.dirichlet(np.ones(len(dom)))).astype(np.float32)
+            lf.fit(data, dom, alpha=float(rs.choice([0.1, 1.0])))
+            leaves.append(lf)
+        comps.append(Product(children=leaves) if nv > 1 else leaves[0])
+    root = assign_ids(Sum(children=comps, weights=np.array([0.4, 0.6], dtype=np.float32)))
+    doms = [[int(t) for t in l.categories] for l in S.bfs_order(root) if isinstance(l, _Cat)]
+    rows = [[float(rs.choice(doms[v])) for v in range(nv)] for _ in range(10)]
+    rows.append([float(max(max(d) for d in doms) + 3)] * nv)          # outside every support
+    return root, np.array(rows, dtype=np.float32), doms
+
+
+def fitted_check(root, X, doms, report):
+    a = np.asarray(log_likelihood(root, X), dtype=np.float64).reshape(-1)
+    la = np.asarray(likelihood(root, X), dtype=np.float64).reshape(-1)
+    for r in range(len(X)):
+        ref = S.ref_value(root, X[r].astype(np.float64))
+        if abs(sexp(a[r]) - ref) > 1e-6 + 2e-4 * ref or abs(la[r] - ref) > 1e-6 + 2e-4 * ref:
+            report(f'circuit of Categorical leaves fitted on the domains {doms}: log_likelihood {a[r]!r} / likelihood {la[r]!r} but the circuit '
+                   f'over its fitted parameters has value {ref!r} at {X[r].tolist()}')
+            return False
+    return True
+
+
+def fitted_leaf_stream(ctx):
+    """leaves obtained through `fit` (not through the constructor) on a domain that is NOT listed in increasing order — the fitted
+    object keeps the caller's order (order of first appearance, a reversed range, ...): every query is about the fitted parameters"""
+    quick = ctx.tier == 'quick'
+    for k in range(10 if quick else 120):
+        sub = ctx.sub_rng('fitted', k)
+        rs = np.random.RandomState(np_seed(sub))
+        root, X, doms = fitted_case(rs, k)
+        ctx.count('circuits-with-leaves-fitted-on-unsorted-domains')
+        ctx.case('fitted-leaves', nontrivial_key=('fitted', k), sample=dict(domains=doms))
+        rep = dict(kind='c01-fitted', k=k, np_seed=np_seed(ctx.sub_rng('fitted', k)), rows=X.tolist(), table=[])
+        try:
+            fitted_check(root, X, doms, lambda m: ctx.violation('c01-fitted-value', m, replay=rep))
+        except Exception as ex:
+            ctx.violation(f'c01-fitted-raises:{type(ex).__name__}', f'log_likelihood raised {type(ex).__name__}: {str(ex)[:160]} on a circuit of fitted Categorical leaves', replay=rep)
+        if ctx.n_new(with_input_only=True) >= 3:
+            return
+
+
 def subclass_stream(ctx):
     """circuits whose inner nodes are instances of USER SUBCLASSES of Sum / Product (own EM step, own bookkeeping): a sum node is a
     sum node for every query — the value is the circuit's semantics over its parameters (`S.ref_value`), equal to what the same
@@ -369,6 +423,8 @@ def run(ctx):
         special_streams(ctx)
     if ctx.n_new(with_input_only=True) == 0:
         subclass_stream(ctx)
+    if ctx.n_new(with_input_only=True) == 0:
+        fitted_leaf_stream(ctx)
     ctx.notes.append('total mass is not enumerated by the model: it is evalNet with nothing observed, equal to the enumerated '
                      'sum by Circ.marg / C01_normalised; the implementation side is enumerated when the discrete domain is small')
 
@@ -392,6 +448,9 @@ def replay(rep):
         from harness.common import replay_demo
         return replay_demo(rep['replay'])
     r = rep['replay']
+    if r.get('kind') == 'c01-fitted':
+        root, X, doms = fitted_case(np.random.RandomState(r['np_seed']), r['k'])
+        return fitted_check(root, X, doms, print)
     root, order = build_from_table(r['table'])
     X = np.array(r['rows'], dtype=np.float64 if r.get('dtype') == 'float64' else np.float32)
     if X.size == 0:
